@@ -999,7 +999,10 @@ def _unkgroup_filter(ctx, E, crate, fa, S, H, gcalls, loc):
             if filt is not None:
                 return None
             filt = o[2]
-        elif nm & {"skip", "take", "step_by", "rev", "skip_while", "take_while", "filter_map"}:
+        elif nm & {"skip", "take", "step_by", "rev", "skip_while", "filter_map"}:
+            return None
+        elif nm & {"map", "take_while", "inspect"} and filt is not None:
+            # between the range and the filter: the filter would not see the prefix length
             return None
         if not o[2]["args"]:
             break
